@@ -15,6 +15,7 @@ import (
 	"io"
 	"os"
 	"os/exec"
+	"runtime"
 	"runtime/debug"
 	"strings"
 	"sync"
@@ -205,6 +206,22 @@ func childMain() {
 	dec := gob.NewDecoder(bufio.NewReaderSize(os.NewFile(3, "requests"), 1<<20))
 	enc := gob.NewEncoder(os.NewFile(4, "answers"))
 	debug.SetMaxStack(64 << 20) // a runaway recursion fails at 64 MB instead of 1 GB
+	// Unbounded growth must be a clean failure of the case, not an OOM of the
+	// machine: the child gives up at 1 GiB of heap (checked every 20 ms), and
+	// the address space is capped as a backstop.
+	go func() {
+		var ms runtime.MemStats
+		for {
+			time.Sleep(20 * time.Millisecond)
+			runtime.ReadMemStats(&ms)
+			if ms.HeapAlloc > 1<<30 {
+				fmt.Fprintf(realStderr, "fatal error: memory limit exceeded by the parser (heap %d MiB > 1024 MiB)\n", ms.HeapAlloc>>20)
+				os.Exit(4)
+			}
+		}
+	}()
+	as := syscall.Rlimit{Cur: 12 << 30, Max: 12 << 30}
+	_ = syscall.Setrlimit(syscall.RLIMIT_AS, &as)
 	var rl syscall.Rlimit
 	if syscall.Getrlimit(syscall.RLIMIT_NOFILE, &rl) == nil && rl.Cur > 4096 {
 		rl.Cur = 4096
